@@ -6,7 +6,8 @@
 //
 // A protocol instance is described by a spec string: one letter per message round
 // (rounds 2..R):  B = reliable broadcast only, X = broadcast + p2p whose verification needs
-// the same sender's broadcast, P = p2p only, A = one unreliable to-all message (To == "").
+// the same sender's broadcast, P = p2p only, A = one unreliable to-all message (To == ""),
+// N / Y = like B / X but the broadcast content declares itself "normal" instead of reliable.
 package vproto
 
 import (
@@ -41,6 +42,16 @@ type BMsg struct {
 }
 
 func (m *BMsg) RoundNumber() round.Number { return round.Number(m.Nr) }
+
+// BMsgN is a broadcast whose content type declares itself "normal" (not reliable), as several
+// CMP rounds do; the handler is expected to echo-check it all the same.
+type BMsgN struct {
+	round.NormalBroadcastContent
+	Nr      uint16
+	Payload []byte
+}
+
+func (m *BMsgN) RoundNumber() round.Number { return round.Number(m.Nr) }
 
 func H(parts ...[]byte) []byte {
 	h := sha256.New()
@@ -81,17 +92,30 @@ func (r *RndP) Number() round.Number { return round.Number(r.k) }
 
 func (r *RndP) MessageContent() round.Content {
 	switch r.kind() {
-	case 'X', 'P', 'A':
+	case 'X', 'Y', 'P', 'A':
 		return &Msg{}
 	}
 	return nil
 }
 
-func (r *RndB) BroadcastContent() round.BroadcastContent { return &BMsg{} }
+func (r *RndB) BroadcastContent() round.BroadcastContent {
+	if k := r.kind(); k == 'N' || k == 'Y' {
+		return &BMsgN{}
+	}
+	return &BMsg{}
+}
 
 func (r *RndB) StoreBroadcastMessage(msg round.Message) error {
-	b, ok := msg.Content.(*BMsg)
-	if !ok || b == nil {
+	var b *BMsg
+	switch c := msg.Content.(type) {
+	case *BMsg:
+		b = c
+	case *BMsgN:
+		if c != nil {
+			b = &BMsg{Nr: c.Nr, Payload: c.Payload}
+		}
+	}
+	if b == nil {
 		return round.ErrInvalidContent
 	}
 	if len(b.Payload) != 32 {
@@ -113,7 +137,7 @@ func (r *RndP) VerifyMessage(msg round.Message) error {
 		return errors.New("vproto: payload must be 32 bytes")
 	}
 	switch r.kind() {
-	case 'X':
+	case 'X', 'Y':
 		b, ok := r.recvB[msg.From]
 		if !ok {
 			return fmt.Errorf("vproto: p2p message of %s verified before its broadcast", msg.From)
@@ -166,12 +190,16 @@ func (r *RndP) Finalize(out chan<- *round.Message) (round.Session, error) {
 	kind := r.spec[r.k-1]
 	self := []byte(r.SelfID())
 	switch kind {
-	case 'B', 'X':
+	case 'B', 'X', 'N', 'Y':
 		next.myB = H([]byte("bc"), self, []byte{byte(nr)}, acc)
-		if err := r.BroadcastMessage(out, &BMsg{Nr: nr, Payload: next.myB}); err != nil {
+		var bc round.BroadcastContent = &BMsg{Nr: nr, Payload: next.myB}
+		if kind == 'N' || kind == 'Y' {
+			bc = &BMsgN{Nr: nr, Payload: next.myB}
+		}
+		if err := r.BroadcastMessage(out, bc); err != nil {
 			return r, err
 		}
-		if kind == 'X' {
+		if kind == 'X' || kind == 'Y' {
 			for _, id := range r.OtherPartyIDs() {
 				if err := r.SendMessage(out, &Msg{Nr: nr, Payload: H([]byte("p2p"), next.myB, self, []byte(id))}, id); err != nil {
 					return r, err
@@ -191,7 +219,7 @@ func (r *RndP) Finalize(out chan<- *round.Message) (round.Session, error) {
 	default:
 		return r, fmt.Errorf("vproto: bad spec letter %q", kind)
 	}
-	if kind == 'B' || kind == 'X' {
+	if kind == 'B' || kind == 'X' || kind == 'N' || kind == 'Y' {
 		return &RndB{RndP{next}}, nil
 	}
 	return &RndP{next}, nil
